@@ -166,13 +166,15 @@ def declare_mpint(E):
                modifies=["self.packet.pos"], returns="int", raises={})
 
 
-def light_readers(E):
+def light_readers(E, keep=()):
     """readers with no behaviour cases: the value read from an arbitrary peer message is unconstrained (used where the
     property does not depend on the message contents, to avoid a case split per field)"""
     POSOK = "0 <= %s and %s <= len(%s)" % (POS, POS, BUF)
     for name, ret in (("get_text", "str"), ("get_string", "bytes"), ("get_binary", "bytes"), ("get_int", "u32"),
                       ("get_boolean", "bool"), ("get_byte", "bytes"), ("get_int64", "u64"), ("get_mpint", "int"),
                       ("get_list", "opaque:StrList")):
+        if name in keep:
+            continue
         E.contract(MSG + name, requires={"pos_in_buffer": POSOK}, ensures={"pos_ok": POSOK},
                    modifies=["self.packet.pos"], returns=ret,
                    raises={"UnicodeDecodeError": "True"} if name in ("get_text", "get_list") else {})
